@@ -176,3 +176,18 @@ Definition explain_c12_layout (c : entries_t * Z * Z * Z * Z * Z * list Z) :=
   let file := layout_d d0 (Z.to_nat iw) (Z.to_nat rw) es common in
   (checksum file, length file,
    map (fun k => match load (firstn k file) with LErr s => stage_code s | LOk _ _ _ => 0 end) (seq 0 (length file))).
+
+(* ---- C12, larger files cut at a SAMPLE of cut points: (entries, common, real bytes, [(k, stage class observed)]) *)
+Definition chk_cut (bytes : list Z) (kc : Z * Z) : bool :=
+  let '(k, code) := kc in
+  (0 <=? k) && (k <? zlen bytes)
+  && lres_obs (load (firstn (Z.to_nat k) bytes)) (Raised code) && (stage_code (torn_stage (Z.to_nat k)) =? code).
+
+Definition chk_c12_sample (c : entries_t * Z * list Z * list (Z * Z)) : bool :=
+  let '(es, common, bytes, cuts) := c in
+  ok_b es common && sres_is (save es common) bytes && forallb (chk_cut bytes) cuts.
+
+Definition explain_c12_sample (c : entries_t * Z * list Z * list (Z * Z)) :=
+  let '(es, common, bytes, cuts) := c in
+  (ok_b es common, sres_is (save es common) bytes,
+   map (fun kc => (fst kc, match load (firstn (Z.to_nat (fst kc)) bytes) with LErr s => stage_code s | LOk _ _ _ => 0 end)) cuts).
